@@ -7,6 +7,7 @@ mod gen;
 mod prob;
 mod state;
 mod twins;
+mod fit;
 
 use common::Out;
 use std::io::Write;
@@ -53,6 +54,7 @@ fn main() {
         "wtwin" => twins::stream_wtwin(&mut out, seed, thorough),
         "mrhs" => twins::stream_mrhs(&mut out, seed, thorough),
         "par" => twins::stream_par(&mut out, seed, thorough),
+        "fit" => fit::stream(&mut out, seed, thorough),
         _ => {
             eprintln!("unknown stream {}", stream);
             std::process::exit(2);
